@@ -151,6 +151,21 @@ func (s corpusSel) files() []corpusFile {
 	return out
 }
 
+// olderRevision: what a replaced corpus entry held before: some words dropped, a sentence in front.
+func olderRevision(content []byte) []byte {
+	w := strings.Fields(string(content))
+	var kept []string
+	for i, x := range w {
+		if i%7 != 3 {
+			kept = append(kept, x)
+		}
+		if i%12 == 11 {
+			kept = append(kept, "\n")
+		}
+	}
+	return []byte("an earlier revision of this entry alpha bravo charlie delta echo foxtrot golf hotel india juliet\n" + strings.Join(kept, " ") + "\n")
+}
+
 func buildClassifier(th float64, files []corpusFile) *Classifier {
 	c := NewClassifier(th)
 	for _, f := range files {
@@ -178,15 +193,7 @@ func classifierFor(th float64, sel corpusSel) *Classifier {
 	c := NewClassifier(th)
 	for _, f := range sel.files() {
 		if sel.ReAdd && (strings.HasPrefix(f.Name, "Synth-") || !sel.Full) {
-			// an earlier revision under the same key: some words dropped, a sentence in front
-			w := strings.Fields(string(f.Content))
-			var kept []string
-			for i, x := range w {
-				if i%7 != 3 {
-					kept = append(kept, x)
-				}
-			}
-			c.AddContent(f.Cat, f.Name, f.Variant, []byte("an earlier revision of this entry alpha bravo charlie delta echo foxtrot golf hotel india juliet\n"+strings.Join(kept, " ")))
+			c.AddContent(f.Cat, f.Name, f.Variant, olderRevision(f.Content))
 		}
 		c.AddContent(f.Cat, f.Name, f.Variant, f.Content)
 	}
